@@ -96,6 +96,21 @@ def stmt_failure(zero, a, b, idx_nm, r, fy, fx):
             want3 = mo.zero + flat[:, 0:1] * mo.a + flat[:, 1:2] * mo.b
             if np.abs(np.asarray(mo.calculated_refineds) - want3).max() > 1e-9 * sc:
                 return '%s() of a Match that had been inspected before: calculated_refineds are not zero + i a + j b of the returned lattice' % nm
+    # cbed_frame selects its disks with the same rule, r = margin (default: the disk radius); an explicit margin of 0 is 0
+    if fy <= 64 and fx <= 64 and fy >= 4 and fx >= 4 and len(flat) <= 16:
+        for mg in (0, 0.0, None, 2.0):
+            rad = 1.5
+            rr = rad if mg is None else float(mg)
+            want_ = [k for k in range(len(flat)) if (rr <= coords[k][0] < int(fy) - rr) and (rr <= coords[k][1] < int(fx) - rr)]
+            if not want_:
+                continue            # (the renderer needs at least one disk)
+            try:
+                _, ci, cp = bu.cbed_frame(fy=int(fy), fx=int(fx), zero=zero, a=a, b=b, indices=idx_nm, radius=rad, margin=mg)
+            except Exception as e:  # noqa
+                return 'cbed_frame(margin=%r) raised %s: %s' % (mg, type(e).__name__, e)
+            amb_ = [k for k in range(len(flat)) if min(abs(coords[k][0] - rr), abs(coords[k][1] - rr), abs(coords[k][0] - (int(fy) - rr)), abs(coords[k][1] - (int(fx) - rr))) < eps]
+            if not amb_ and not np.array_equal(np.asarray(ci, dtype=float), flat[want_]):
+                return 'cbed_frame(margin=%r): returned %d index pairs, expected the %d whose coordinate satisfies %s <= p < frame - %s' % (mg, len(ci), len(want_), rr, rr)
     # polar <-> cartesian (sampled only: arctan2 / sin / cos are not modelled)
     pol = bu.make_polar(np.array([a, b]))
     if np.abs(bu.make_cartesian(pol) - np.array([a, b])).max() > 1e-9 * sc:
@@ -120,6 +135,17 @@ def stmt_failure(zero, a, b, idx_nm, r, fy, fx):
                               ('get_indices', grm.get_indices(zero + frac[:, 0:1] * a + frac[:, 1:2] * b, zi, ai, bi_), frac)):
             if np.abs(np.asarray(got, dtype=float) - want).max() > 1e-9 * cond * sc:
                 return '%s with integer-dtype zero/a/b and fractional indices: %s, expected %s' % (nm, np.asarray(got).tolist()[:3], want.tolist()[:3])
+        # narrow and unsigned integer dtypes for everything (points, zero and lattice vectors -- e.g. differences of uint16 centre positions):
+        # products of coordinates do not fit them, and a lattice with negative determinant has no unsigned representation of it
+        for dtn in (np.int16, np.uint16, np.int32, np.uint8):
+            info = np.iinfo(dtn)
+            pts_i = zero + flat[:, 0:1] * a + flat[:, 1:2] * b
+            allv = np.concatenate([pts_i.ravel(), zero, a, b])
+            if not np.array_equal(flat, np.rint(flat)) or allv.min() < info.min or allv.max() > info.max:
+                continue
+            got = grm.get_indices(pts_i.astype(dtn), zero.astype(dtn), a.astype(dtn), b.astype(dtn))
+            if np.abs(np.asarray(got, dtype=float) - flat).max() > 1e-9 * cond * sc:
+                return 'get_indices with %s points, zero and lattice vectors: %s, expected %s' % (np.dtype(dtn).name, np.asarray(got).tolist()[:3], flat.tolist()[:3])
         pi_ = bu.make_polar(np.array([ai, bi_]))
         if np.abs(np.asarray(pi_, dtype=float) - pol).max() > 1e-9 * sc:
             return 'make_polar of integer-dtype vectors %s differs from the float result %s' % (np.asarray(pi_).tolist(), pol.tolist())
